@@ -5,6 +5,7 @@ import ChythonModel.Proofs.C02Chain
 import ChythonModel.Proofs.C02Rounds
 import ChythonModel.Proofs.C02Pairing
 import ChythonModel.Proofs.C02Writer
+import ChythonModel.Proofs.C02Closures
 /-!
 # C02 — SMILES write then read is lossless; canonical strings never collide
 
@@ -165,6 +166,61 @@ theorem writer_numbering_is_one_allocator_run (m : Mol) (env : Env) (opts : Opts
   refine ⟨c, hp, hc, fun hwf => ?_⟩
   have := closure_discipline (rs.flatMap roundCycles) [] (by simpa using hwf) c hp hc
   exact this
+
+/-- **closure_roundtrip** for everything `_smiles` returns: if the traversal is well formed (`cyclesWF`: no cycle twice
+    on one atom, every cycle on at most two atoms — evaluated by the driver on every case), then the ring-closure bonds
+    that the SMILES connection semantics `readToks` forms from the written tokens are exactly — same atoms, same order —
+    the bonds obtained by joining the two ends of each DFS cycle, and no closure stays open.  Number reuse (after the
+    delayed release, within a component and across components) never makes a reader pair the wrong atoms. -/
+theorem writer_closure_roundtrip (m : Mol) (env : Env) (opts : Opts) (rs : List Round) (order : List Nat)
+    (h : smilesRounds m env opts = .ok (rs, order))
+    (hwf : cyclesWF [] [] (rs.flatMap roundCycles) = true)
+    (es : List REdge) (hread : readToks (joinRounds rs) = .ok es) :
+    closureEdges es = (pairAll [] (rs.flatMap cycleEvents)).2 ∧ (pairAll [] (rs.flatMap cycleEvents)).1 = [] :=
+  writer_closures m env opts rs order h hwf es hread
+
+/-- FULL statement of "the written tokens denote the molecule": for every run of the writer the connection semantics
+    of the token list gives exactly the bonds of the molecule, each once, with the symbol `_format_bond` assigns.
+    Not proved in full (the DFS itself is certified per run by `roundOk`/`cyclesWF`, see design/C02.md); the driver
+    evaluates `tokensDenoteMol` on every case of the correspondence. -/
+def ReadWriteBondsFull : Prop :=
+  ∀ (m : Mol) (env : Env) (opts : Opts) (rs : List Round) (order : List Nat),
+    m.WF = true → smilesRounds m env opts = .ok (rs, order) → tokensDenoteMol m opts rs (joinRounds rs) = true
+
+/-- **read_write_bonds_partial**: the proved part of `ReadWriteBondsFull`.  For every run of the writer whose traversal is
+    well formed, whatever `readToks` reads back splits into chain bonds = the DFS tree bonds `(parent, child)` in written
+    order, and closure bonds = the two ends of each DFS cycle, nothing left open.  Missing for the full statement:
+    (i) the DFS tree and cycles of `dfsRun` cover every bond of the component exactly once (`roundOk`, per run),
+    (ii) `cyclesWF` of the DFS output (per run), (iii) the bond symbols, (iv) stereo marks. -/
+theorem read_write_bonds_partial (m : Mol) (env : Env) (opts : Opts) (rs : List Round) (order : List Nat)
+    (h : smilesRounds m env opts = .ok (rs, order))
+    (hwf : cyclesWF [] [] (rs.flatMap roundCycles) = true)
+    (es : List REdge) (hread : readToks (joinRounds rs) = .ok es) :
+    chainOf es = (rs.flatMap fun r => r.smi.filterMap FTok.bond?) ∧
+    closureEdges es = (pairAll [] (rs.flatMap cycleEvents)).2 ∧ (pairAll [] (rs.flatMap cycleEvents)).1 = [] := by
+  refine ⟨?_, writer_closures m env opts rs order h hwf es hread⟩
+  exact chain_roundtrip m opts rs
+    (fun r hr => ((smilesRounds_spec m env opts rs order h).1 r hr).emittedRound) es hread
+
+/-- a non-trivial instance of the hypotheses of `read_write_bonds_partial` / `writer_closure_roundtrip`:
+    bicyclo[1.1.0]butane `C12CC1C2` (two closures, one of them opened on an atom that already carries one) -/
+def bicycloButane : Mol :=
+  ⟨[(1, { z := 6, implH := some 1 }), (2, { z := 6, implH := some 2 }), (3, { z := 6, implH := some 1 }), (4, { z := 6, implH := some 2 })],
+   [(1, [(2, { order := 1 }), (3, { order := 1 }), (4, { order := 1 })]), (2, [(1, { order := 1 }), (3, { order := 1 })]),
+    (3, [(2, { order := 1 }), (1, { order := 1 }), (4, { order := 1 })]), (4, [(3, { order := 1 }), (1, { order := 1 })])]⟩
+def bicycloEnv : Env :=
+  { weights := [(1, 1), (2, 2), (3, 1), (4, 2)], setOrders := [[1, 2, 3, 4]],
+    front := [((1, 2), [3, 4]), ((1, 3), [2, 4]), ((1, 4), [2, 3]), ((3, 2), [1, 4]), ((3, 1), [2, 4]), ((3, 4), [2, 1])],
+    draws := [] }
+def bicycloDemo : Bool :=
+  match smilesRounds bicycloButane bicycloEnv {} with
+  | .ok (rs, _) =>
+    cyclesWF [] [] (rs.flatMap roundCycles) &&
+    (match readToks (joinRounds rs) with
+     | .ok es => (closureEdges es).length == 2 && (chainOf es).length == 3 && tokensDenoteMol bicycloButane {} rs (joinRounds rs)
+     | .error _ => false)
+  | .error _ => false
+example : bicycloDemo = true := by decide +kernel
 
 /-- FULL statement of the lexical round trip for the writer (no hypothesis on the molecule).  It is FALSE for the model
     as it mirrors the code: an aromatic-bonded halogen without any bracket reason is written `f`/`cl`/`br`/`i`, which
